@@ -616,6 +616,10 @@ class Behavior(_IModel):
                 slot = layout.slots[f"{Slot.eps_v}{i}"]
                 J_e_pg[..., P, slot] = branch.g * dG_e_pg * dNdSig_C
                 J_e_pg[..., nz, slot] = -branch.g * NC_e_pg
+                # the back-strains follow the same flow direction, so they feel it too
+                for j in range(len(self.__kinematic)):
+                    Bj = layout.slots[f"{Slot.alpha}{j}"]
+                    J_e_pg[..., Bj, slot] = branch.g * dG_e_pg * dNdSig_C
 
         return J_e_pg, D_e_pg
 
